@@ -45,7 +45,7 @@ fn scenario(cfg: &Cfg, rng: &mut Rng, case: &str) {
             let reg = Reg::new(0x10_0000, 0x4000, 0x7000_0000, 0);
             for _ in 0..rng.range(3, 25) {
                 let q = rng.below(nworkers as u64) as usize;
-                match rng.below(9) {
+                match rng.below(10) {
                     0 | 1 => {
                         let e = EventFd::new(libc::EFD_NONBLOCK).expect("eventfd");
                         let old = cur_kick[q].take();
@@ -102,6 +102,21 @@ fn scenario(cfg: &Cfg, rng: &mut Rng, case: &str) {
                         let _ = fe.set_mem_table(&[reg.info()]);
                         let _ = fe.set_log_base(0, Some(VhostUserDirtyLogRegion { mmap_size: 0x1000, mmap_offset: 0, mmap_handle: log.as_raw_fd() }));
                         trace.push("SET_LOG_BASE".into());
+                    }
+                    8 => {
+                        // a log descriptor that cannot be mapped (an eventfd, or an unaligned offset):
+                        // the request fails - the descriptor that came with it must still be closed
+                        let _ = fe.set_mem_table(&[reg.info()]);
+                        if rng.chance(1, 2) {
+                            let e = EventFd::new(libc::EFD_NONBLOCK).expect("eventfd");
+                            let _ = fe.set_log_base(0, Some(VhostUserDirtyLogRegion { mmap_size: 0x1000, mmap_offset: 0, mmap_handle: e.as_raw_fd() }));
+                        } else {
+                            let log = sys::memfd("log", 0x3000);
+                            let _ = fe.set_log_base(0, Some(VhostUserDirtyLogRegion { mmap_size: 0x1000, mmap_offset: 0x123, mmap_handle: log.as_raw_fd() }));
+                        }
+                        trace.push("SET_LOG_BASE(unmappable)".into());
+                        // the daemon ends the connection after a failed request
+                        break;
                     }
                     _ => {
                         let _ = fe.set_vring_enable(q, rng.chance(1, 2));
